@@ -457,5 +457,5 @@ Definition ser_case (c : sched_case) (o : cstore * list cresp * list (option cre
 Definition both_ok (c : sched_case) (o : cstore * list cresp * list (option cresp)) : bool :=
   pred_eqb (run_sched c) o && ser_case c o.
 Definition hist_case := (cworld * list ureq * list op * cstore)%type.
-Definition lin_case (c : hist_case) : N := let '(w, setup, ops, st) := c in lin_verdict w setup ops st 20000.
+Definition lin_case (c : hist_case) : N := let '(w, setup, ops, st) := c in lin_verdict w setup ops st 6000.
 """
